@@ -15,8 +15,12 @@ from . import stacks as S
 
 
 def gen_c01_stack(rng):
-    kind = rng.choice(["tensor", "tensor", "pil", "semseg", "torchwrap"])
+    kind = rng.choice(["tensor", "tensor", "pil", "semseg", "torchwrap", "jointprobe"])
     n = rng.randint(1, 12)
+    if kind == "jointprobe":
+        # a stateful fused wrapper: members of a jointly loaded group must stem from one and the same load
+        return {"root": {"kind": "tensor", "n": n, "clobber": {}, "ctx_tags": True}, "below": [], "seeded": None, "above": [], "concat": None,
+                "jointprobe": True}
     if kind == "torchwrap":
         # a plain torch dataset adapted by TorchWrapper: items x and class only, no context
         stack = {"root": {"kind": kind, "n": n, "clobber": {}}, "below": [], "seeded": None, "above": [], "concat": None}
@@ -79,6 +83,9 @@ def build_c01(stack):
         ds = cls(ds, build_tree(sd["transform"]), seed=sd["seed"])
     else:
         ds = S.build(dict(stack, above=[]))
+    if stack.get("jointprobe"):
+        from .simdata import CountingFusedWrapper
+        ds = CountingFusedWrapper(ds)
     if stack.get("above_seeded"):
         ds = S.apply_seeded(ds, stack["above_seeded"])
     for layer in stack.get("above", []):
@@ -92,6 +99,8 @@ def build_c01(stack):
 def fused_groups(stack):
     g = []
     sd = stack.get("seeded")
+    if stack.get("jointprobe"):
+        return [["x", "class"]]
     if stack.get("concat"):
         return g
     if sd and sd["w"] == "mix":
@@ -105,6 +114,15 @@ def gen_mode(rng, stack):
     kind = stack["root"]["kind"]
     items = ["x", "class", "index", "x", "class", "y", "source", "target", "semseg"]
     sd = stack.get("seeded")
+    if stack.get("jointprobe"):
+        # each fused member at most once (a duplicated member is loaded a second time on its own - for a stateful or
+        # unseeded wrapper that copy is by construction another load; observation, not part of the probe)
+        base = rng.choice([["x", "class"], ["class", "x"], ["x"], ["class"], ["class", "x"]])
+        extra = ["index"] * rng.choice([0, 1, 2])
+        mode = list(base)
+        for e in extra:
+            mode.insert(rng.randrange(len(mode) + 1), e)
+        return " ".join(mode)
     if kind == "torchwrap":
         items = ["x", "class", "index", "x", "class"]
         return " ".join(rng.choice(items) for _ in range(rng.choice([1, 1, 2, 2, 3, 4, 6])))
@@ -118,7 +136,7 @@ def gen_mode(rng, stack):
     for _ in range(L):
         cand = list(items)
         if produced_x:
-            cand += ["ctx.root_x", "ctx.root_x"]
+            cand += ["ctx.root_x", "ctx.root_x", "ctx.last_item", "ctx.last_item"]
             if sd and "transform" in sd and any(s.get("t") == "save" for s in C.subtrees(sd["transform"])) and S.item_of(sd) in mode \
                     and not stack.get("concat") and not stack.get("above_seeded"):
                 cand += ["ctx.saved"]
@@ -219,6 +237,40 @@ class Spec(core.PropSpec):
             if len(items) > 1:
                 yield dict(plan, mode=" ".join(items[:i] + items[i + 1:]))
         yield from core.generic_candidates(plan, [["ops"]], [(["K"], 1), (["stack", "root", "n"], 1)])
+
+    @staticmethod
+    def _joint_consistency(got, exp, mode, rc):
+        """jointprobe stacks: kinds/indices must equal the reference's; where the mode contains both x and class, every delivered x
+        and class of one sample must carry the same load number (they equal what loading them together once yields)"""
+        items = mode.split(" ")
+        single = not isinstance(exp, list)
+        gs, es = ([got], [exp]) if single else (got, exp)
+        if not isinstance(gs, list) or len(gs) != len(es):
+            return f"{len(gs) if isinstance(gs, list) else type(gs).__name__} samples, expected {len(es)}"
+        for g, e in zip(gs, es):
+            if isinstance(e, int) and not isinstance(g, tuple):
+                if g != e:
+                    return f"{g} vs {e}"
+                continue
+            if rc:
+                g, e = g[0], e[0]
+            gi = [g] if len(items) == 1 else list(g)
+            ei = [e] if len(items) == 1 else list(e)
+            if len(gi) != len(ei):
+                return f"{len(gi)} items, expected {len(ei)}"
+            loads = set()
+            for a, b, it in zip(gi, ei, items):
+                if it == "index":
+                    if a != b:
+                        return f"index {a} vs {b}"
+                    continue
+                if not (isinstance(a, tuple) and len(a) == 3) or a[:2] != b[:2]:
+                    return f"item {it}: {a} vs expected kind/index {b[:2] if isinstance(b, tuple) else b}"
+                if "x" in items and "class" in items:
+                    loads.add(a[2])
+            if len(loads) > 1:
+                return f"x and class of one sample stem from different loads {sorted(loads)}: {gi}"
+        return None
 
     def execute(self, plan):
         from types import SimpleNamespace
@@ -334,6 +386,12 @@ class Spec(core.PropSpec):
             per_worker[w] += 1
             forms.add(kind)
             out.ev("acc", op, h(got))
+            if stack.get("jointprobe"):
+                d = self._joint_consistency(got, exp, mode, rc)
+                if d:
+                    out.violate("C01:fused-members-not-from-one-joint-load", f"{kind},fused", f"mode='{mode}' return_ctx={rc} access {op}: {d}")
+                    break
+                continue
             d = deep_diff(got, exp)
             if d:
                 # classify: context leak vs value/order
